@@ -1,7 +1,8 @@
 #!/usr/bin/env python3
-"""Drives the Python binding built from /repo's working tree and writes the same ndjson events as the Rust harness.
-usage: driver.py <moddir> <command> [args...]   (events on stdout)"""
-import gc, json, sys
+"""Drives the Python binding built from /repo's working tree and writes the same ndjson events as the Rust harness,
+so that the same TLA+ trace specifications judge both.  usage: driver.py <moddir> <command> [args...]  (events on stdout).
+Nothing here judges an output; a Python exception is recorded as an event, a crash of the interpreter is the exit status."""
+import gc, json, random, sys
 
 moddir = sys.argv[1]
 sys.path.insert(0, moddir)
@@ -16,10 +17,211 @@ def d32(x):
     return [(x >> (2 * (31 - i))) & 3 for i in range(32)]
 
 
+def read_fasta(path):
+    seqs = []
+    for line in open(path, "rb").read().split(b"\n"):
+        if line.startswith(b">"):
+            seqs.append(b"")
+        elif seqs:
+            seqs[-1] += line.rstrip(b"\r")
+    return seqs
+
+
+# ------------------------------------------------------------------ string generators
+NUC = "ACGTacgtUu"
+OTHER_ASCII = "NnRYKMSWBDHVX-*. 0123456789"
+UNI = ["é", "α", "中", "\U0001F9EC", "А", "Å", "☃", "퟿", "Ā"]
+
+
+def gen_string(rng, n):
+    style = rng.randrange(6)
+    out = []
+    if style == 0:
+        out = [rng.choice("ACGT") for _ in range(n)]
+    elif style == 1:
+        out = [rng.choice(NUC) for _ in range(n)]
+    elif style == 2:
+        unit = [rng.choice("ACGT") for _ in range(rng.randint(1, 3))]
+        out = [unit[i % len(unit)] for i in range(n)]
+    elif style == 3:
+        out = [rng.choice(NUC) if rng.random() > 0.08 else rng.choice(OTHER_ASCII) for _ in range(n)]
+    elif style == 4:
+        out = [rng.choice(NUC) if rng.random() > 0.1 else rng.choice(UNI) for _ in range(n)]
+    else:
+        out = [rng.choice(NUC + OTHER_ASCII) if rng.random() > 0.3 else rng.choice(UNI) for _ in range(n)]
+    return "".join(out)
+
+
+def churn(rng, n):
+    """allocate and free strings of a similar size so that a dangling buffer would be overwritten"""
+    junk = [("Z" * n) + str(i) for i in range(64)]
+    junk2 = [bytes(n + 40) for _ in range(64)]
+    del junk, junk2
+    gc.collect()
+
+
+# ------------------------------------------------------------------ commands
 def header(kmin, kmax):
     for k in range(kmin, kmax + 1):
         cols = pk.OligoComputer(k).get_header()
         emit({"ev": "header", "k": k, "src": "python", "cols": [list(c.encode()) for c in cols]})
+    emit({"ev": "eof"})
+
+
+def sparse(vals, norm):
+    row = []
+    for p, v in enumerate(vals):
+        if norm:
+            t = format(v, ".6f")
+            a, b = t.split(".")
+            x = int(a) * 1000000 + int(b)
+        else:
+            x = int(v) if float(v).is_integer() else -1
+        if x != 0:
+            row += [p, x]
+    return row
+
+
+def orec(k, norm, text, vals, src):
+    emit({"ev": "orec", "src": src, "k": k, "norm": 1 if norm else 0, "bytes": list(text.encode("utf-8")),
+          "ncols": len(vals), "row": sparse(vals, norm), "same": 0})
+
+
+def oligo(fa, kmin, kmax):
+    seqs = read_fasta(fa)
+    for k in range(kmin, kmax + 1):
+        oc = pk.OligoComputer(k)
+        for norm in (False, True):
+            for s in seqs:
+                text = s.decode("latin-1")   # bytes >= 0x80 become 2-byte UTF-8: non-ASCII acts as ambiguous
+                orec(k, norm, text, oc.vectorise_one(text, norm), "py")
+    emit({"ev": "eof"})
+
+
+def kmer(seed, runs, maxlen):
+    rng = random.Random(seed)
+    for i in range(runs):
+        k = 1 + (i % 31) if i % 2 == 0 else rng.choice([1, 2, 15, 16, 17, 30, 31])
+        n = rng.choice([rng.randint(0, k + 1), k, rng.randint(0, maxlen), rng.randint(0, maxlen)])
+        text = gen_string(rng, n)
+        emit({"ev": "kinit", "k": k, "bytes": list(text.encode("utf-8")), "src": "py"})
+        # build from a temporary, release it, churn the allocator before and between the calls
+        it = pk.KmerGenerator("".join([text]), k)
+        del text
+        churn(rng, n)
+        j = 0
+        for f, r in it:
+            emit({"ev": "kemit", "f": d32(f), "r": d32(r)})
+            j += 1
+            if j % 17 == 0:
+                churn(rng, n)
+        emit({"ev": "kend"})
+        # to_acgt on a few codes
+        if i % 5 == 0:
+            for x in (0, (1 << (2 * k)) - 1, rng.getrandbits(2 * k)):
+                emit({"ev": "kacgt", "k": k, "x": d32(x), "txt": list(it.to_acgt(x).encode())})
+    emit({"ev": "eof"})
+
+
+def minimiser(seed, runs, maxlen):
+    rng = random.Random(seed)
+    for i in range(runs):
+        m = 1 + (i % 31) if i % 3 == 0 else rng.choice([1, 2, 3, 5, 7, 15, 16, 28, 30, 31])
+        w = rng.choice([m, m + 1, m + rng.randint(0, 8), rng.randint(m, m + 60)])
+        n = rng.choice([rng.randint(0, w + 1), max(w - 1, 0), w, w + 1, rng.randint(0, maxlen), rng.randint(0, maxlen)])
+        text = gen_string(rng, n)
+        emit({"ev": "minit", "w": w, "m": m, "kv": 0, "bytes": list(text.encode("utf-8")), "src": "py"})
+        it = pk.MinimiserGenerator("".join([text]), w, m)
+        del text
+        churn(rng, n)
+        j = 0
+        for v, s, e in it:
+            emit({"ev": "mrun", "open": 0 if v == (1 << 64) - 1 else 1, "v": d32(v), "s": s, "e": e, "kmers": []})
+            j += 1
+            if j % 7 == 0:
+                churn(rng, n)
+        emit({"ev": "mend"})
+    emit({"ev": "eof"})
+
+
+def cgr_event(text, size, pts, src):
+    b = list(text.encode("utf-8"))
+    if pts is None:
+        emit({"ev": "cgr", "src": src, "s": size, "bytes": b, "err": 1, "npts": 0, "nexact": 0, "pts": [], "tops": []})
+        return
+    n = len(pts)
+    nex = min(n, 29)
+    flat = []
+    for i, (x, y) in enumerate(pts[:nex]):
+        for v in (x, y):
+            t = v * (2.0 ** (i + 2))          # exact: scaling by a power of two
+            ti = int(t)
+            flat.append(ti // size if (t == ti and ti % size == 0) else -1)
+    tops = []
+    for (x, y) in pts[nex:]:
+        row = []
+        for v in (x, y):
+            for _ in range(20):
+                v *= 2.0
+                if v >= size:
+                    row.append(1)
+                    v -= size
+                else:
+                    row.append(0)
+        tops.append(row)
+    emit({"ev": "cgr", "src": src, "s": size, "bytes": b, "err": 0, "npts": n, "nexact": nex, "pts": flat, "tops": tops})
+
+
+def cgr(seed, runs, maxlen):
+    rng = random.Random(seed)
+    sizes = [1, 2, 3, 8, 1000, 1 << 20]
+    for i in range(runs):
+        size = sizes[i % len(sizes)]
+        c = pk.CgrComputer(size)
+        n = rng.choice([0, 1, 2, rng.randint(0, 60), rng.randint(0, 60), rng.randint(0, maxlen)])
+        text = "".join(rng.choice(NUC) for _ in range(n))
+        if i % 3 == 2 and n > 0:
+            p = rng.choice([0, n - 1, rng.randrange(n)])
+            text = text[:p] + rng.choice(OTHER_ASCII + "".join(UNI)) + text[p + 1:]
+        try:
+            pts = c.vectorise_one(text)
+        except ValueError:
+            pts = None
+        cgr_event(text, size, pts, "py")
+    # batches: all clean -> list in argument order; one bad -> ValueError for the whole call
+    for bs in (0, 1, 7, 300):
+        size = rng.choice(sizes)
+        c = pk.CgrComputer(size)
+        seqs = ["".join(rng.choice(NUC) for _ in range(rng.randint(0, 40))) for _ in range(bs)]
+        res = c.vectorise_batch(list(seqs))
+        emit({"ev": "batchlen", "n": bs, "got": len(res)})
+        for s, pts in zip(seqs, res):
+            cgr_event(s, size, pts, "py-batch")
+        if bs > 0:
+            bad = list(seqs)
+            j = rng.randrange(bs)
+            bad[j] = bad[j] + "N"
+            try:
+                c.vectorise_batch(bad)
+                emit({"ev": "pyerror", "what": "batch with a bad nucleotide did not raise"})
+            except ValueError:
+                cgr_event(bad[j], size, None, "py-batch")
+    emit({"ev": "eof"})
+
+
+def batch(seed):
+    """vectorise_batch returns exactly the per-sequence results in argument order, any batch size"""
+    rng = random.Random(seed)
+    for bs in (0, 1, 7, 1000, 5000):
+        k = rng.choice([1, 2, 3, 4]) if bs > 1000 else rng.choice([2, 3, 5])
+        norm = bs % 2 == 0
+        oc = pk.OligoComputer(k)
+        # distinguishable elements: each sequence differs from its neighbours
+        seqs = [gen_string(rng, rng.randint(0, 30)) for _ in range(bs)]
+        res = oc.vectorise_batch(list(seqs), norm)
+        emit({"ev": "batchlen", "n": bs, "got": len(res)})
+        for s, vals in zip(seqs, res):
+            orec(k, norm, s, vals, "py-batch")
     emit({"ev": "eof"})
 
 
@@ -28,6 +230,16 @@ def main():
     a = sys.argv[3:]
     if cmd == "header":
         header(int(a[0]), int(a[1]))
+    elif cmd == "oligo":
+        oligo(a[0], int(a[1]), int(a[2]))
+    elif cmd == "kmer":
+        kmer(int(a[0]), int(a[1]), int(a[2]))
+    elif cmd == "minimiser":
+        minimiser(int(a[0]), int(a[1]), int(a[2]))
+    elif cmd == "cgr":
+        cgr(int(a[0]), int(a[1]), int(a[2]))
+    elif cmd == "batch":
+        batch(int(a[0]))
     else:
         raise SystemExit("unknown command " + cmd)
 
